@@ -70,14 +70,19 @@ W3(L) == \A i \in 1..NEntries(L) : (~L.cd[i].name.ascii => FUtf8(L.cd[i].flags))
 \* ... and, for this crate's writer, only then
 W3Writer(L) == \A i \in 1..NEntries(L) : (L.cd[i].name.ascii => ~FUtf8(L.cd[i].flags))
 \* 32-bit fields: a ZIP64 record, if present, carries exactly the sentinel-valued fields
+\* a 32-bit field either holds its value, or holds the sentinel and the value is carried by the
+\* ZIP64 record (a producer may force that on a small value; a too-large value must use it)
+F32(v32, v, z) == (v32 = v /\ (v < Thr32 \/ ~z)) \/ (v32 = Thr32 /\ z)
 W4Entry(c, l) ==
    /\ c.z64_exact /\ c.zcount <= 1
-   /\ c.usize32 = Clamp32(c.usize) /\ c.csize32 = Clamp32(c.csize) /\ c.off32 = Clamp32(c.off)
+   /\ F32(c.usize32, c.usize, c.zcount = 1) /\ F32(c.csize32, c.csize, c.zcount = 1) /\ F32(c.off32, c.off, c.zcount = 1)
    /\ (l.ok => (l.z64_ok /\ l.zcount <= 1))
 W4(L) == \A i \in 1..NEntries(L) : W4Entry(L.cd[i], L.lf[i])
 \* this crate's writer never forces a sentinel in the central record
 W4Writer(L) == \A i \in 1..NEntries(L) :
-   LET c == L.cd[i] IN c.zcount = (IF CentralZ64Len(c.usize, c.csize, c.off) > 0 THEN 1 ELSE 0)
+   LET c == L.cd[i] IN
+   /\ c.zcount = (IF CentralZ64Len(c.usize, c.csize, c.off) > 0 THEN 1 ELSE 0)
+   /\ c.usize32 = Clamp32(c.usize) /\ c.csize32 = Clamp32(c.csize) /\ c.off32 = Clamp32(c.off)
 \* end records
 W5(L) ==
    LET e == L.eocd
@@ -114,18 +119,18 @@ W11(L) == \A i \in 1..NEntries(L) : L.lf[i].ok => (FDD(L.lf[i].flags) <=> Len(L.
 
 WellFormed(L) ==
    /\ L.ok /\ L.big = <<>>
-   /\ W1(L) /\ W2(L) /\ W3(L) /\ W4(L) /\ W5(L) /\ W6(L) /\ W7(L) /\ W8(L) /\ W10(L) /\ W11(L)
+   /\ W1(L) /\ W2(L) /\ W4(L) /\ W5(L) /\ W6(L) /\ W7(L) /\ W8(L) /\ W10(L) /\ W11(L)
 \* what additionally holds of everything this crate's writer emits from scratch
-WriterWellFormed(L) == WellFormed(L) /\ W3Writer(L) /\ W4Writer(L) /\ W5Writer(L)
+WriterWellFormed(L) == WellFormed(L) /\ W3(L) /\ W3Writer(L) /\ W4Writer(L) /\ W5Writer(L)
 \* ... and no byte is unaccounted for (unless the caller wrote bytes where no entry was open)
 NoGaps(L) == W12(L)
 
 \* first violated conjunct, for diagnostics
 WhyNot(L) ==
-   IF ~L.ok THEN "lexer" ELSE IF L.big # <<>> THEN "big" ELSE IF ~W1(L) THEN "W1" ELSE IF ~W2(L) THEN "W2" ELSE IF ~W3(L) THEN "W3"
+   IF ~L.ok THEN "lexer" ELSE IF L.big # <<>> THEN "big" ELSE IF ~W1(L) THEN "W1" ELSE IF ~W2(L) THEN "W2"
    ELSE IF ~W4(L) THEN "W4" ELSE IF ~W5(L) THEN "W5" ELSE IF ~W6(L) THEN "W6" ELSE IF ~W7(L) THEN "W7"
    ELSE IF ~W8(L) THEN "W8" ELSE IF ~W10(L) THEN "W10" ELSE IF ~W11(L) THEN "W11"
-   ELSE IF ~W3Writer(L) THEN "W3w" ELSE IF ~W4Writer(L) THEN "W4w" ELSE IF ~W5Writer(L) THEN "W5w"
+   ELSE IF ~W3(L) THEN "W3" ELSE IF ~W3Writer(L) THEN "W3w" ELSE IF ~W4Writer(L) THEN "W4w" ELSE IF ~W5Writer(L) THEN "W5w"
    ELSE "ok"
 
 \* what is left of well-formedness when an archive was extended in place by another producer's
